@@ -145,6 +145,27 @@ func makeAnnoCase(r *fw.Rng, thorough bool, format, form string, vp gen.VarProfi
 		ac.sf.Text = strings.ReplaceAll(ac.sf.Text, "SN:"+ac.sf.RefName+"\t", "SN:"+ac.an.RefName+"\t")
 		ac.sf.Text = strings.ReplaceAll(ac.sf.Text, "\t"+ac.sf.RefName+"\t", "\t"+ac.an.RefName+"\t")
 		ac.sf.RefName = ac.an.RefName
+		if opts.AllNQuery && len(ac.sf.Queries) > 0 && r.Chance(0.08) {
+			// a failed sample: every called base of one query is N; its CIGAR (and with it its
+			// insertions and deletions) is what the aligner reported for the reads all the same
+			qi := r.Intn(len(ac.sf.Queries))
+			q := &ac.sf.Queries[qi]
+			lines := strings.Split(ac.sf.Text, "\n")
+			for ri := range q.Recs {
+				old := q.Recs[ri].Seq
+				nn := strings.Repeat("N", len(old))
+				for li, l := range lines {
+					f := strings.Split(l, "\t")
+					if len(f) >= 11 && f[0] == q.Name && f[9] == old {
+						f[9] = nn
+						lines[li] = strings.Join(f, "\t")
+					}
+				}
+				q.Recs[ri].Seq = nn
+			}
+			q.Truth = nil // the records, not the generator's true alignment, describe this query now
+			ac.sf.Text = strings.Join(lines, "\n")
+		}
 		ac.refFile = r.Chance(0.7)
 		ac.refTxt = gen.RefFasta(ac.an.RefName, ref, []int{0, 60}[r.Intn(2)])
 		for _, q := range ac.sf.Queries {
@@ -234,7 +255,7 @@ func runC04(c *fw.Ctx, idx int) fw.Result {
 	if r.Chance(0.25) {
 		form = "sam"
 	}
-	opts := gen.AnnoOpts{MaxFeats: 6, AllowUnnamed: true, AllowSlip: true, SplitCodons: true, Isoforms: true, Rotate: true, NoStop: true, DupNames: true, CRLF: true, AmbigRef: true}
+	opts := gen.AnnoOpts{MaxFeats: 6, AllowUnnamed: true, AllowSlip: true, SplitCodons: true, Isoforms: true, Rotate: true, NoStop: true, DupNames: true, CRLF: true, AmbigRef: true, NoFeatures: true}
 	ac := makeAnnoCase(r, c.Thorough(), format, form, gen.DefaultVarProfile(), 8, opts)
 	threads := pickThreads(r)
 	outA, errA := ac.runVariants(-1, -1, false, 0, true, threads)
@@ -597,6 +618,9 @@ func ambiguateReference(r *fw.Rng, an *gen.Annotation) {
 	}
 	codesWith := map[byte]string{'A': "RMWDHVN", 'C': "YMSBHVN", 'G': "RKSBDVN", 'T': "YKWBDHN"}
 	tries := r.Range(1, 8)
+	if len(an.Feats) == 0 {
+		return
+	}
 	for t := 0; t < tries; t++ {
 		f := an.Feats[r.Intn(len(an.Feats))]
 		pos := f.CodingPositions()
